@@ -81,6 +81,16 @@ CHECKS["C19"] = dict(level="model_checking", design="5 C19",
    note="The pump thread is stepped by the harness. One open known finding (emission ORDER of handler-queued jobs depends on batching in the "
         "threaded flavour) is subtracted by structural signature; any other order difference is a violation.",
    technique="TLC model checking of Framing.tla and of the product Flavours.tla + differential conformance records validated by TLC (StreamTrace.tla)")
+CHECKS["C16"] = dict(level="model_checking", design="5 C16",
+   text="SendRace.tla has one action per access to the shared connection reference (protocol, protocol.transport, connection open/closed) for "
+        "the pump, producers, the reader thread's connection_lost (with / without error), disconnect() and the connect thread. TLC explores "
+        "all interleavings: the repaired design satisfies NoExceptionIntoPump, AtMostOnce, QueueOrder, ExactlyOnceOrDropped; the pinned code "
+        "(Snapshot = FALSE) yields the AttributeError. The real methods run under a deterministic line-level scheduler (sys.settrace, one "
+        "baton): every schedule with <= 2 preemptions (thorough: plus random 3-preemption schedules) for five scenarios; the recorded effects "
+        "are validated by TLC against SendRace.tla with the internal reads as silent steps.",
+   note="Switch points are source lines of transport.py / task.py (no byte-code level races inside a line). Connections are fakes (write on a "
+        "closed connection raises SerialException). The send lock is not explored (a single pump sends).",
+   technique="TLC model checking of SendRace.tla + bounded-preemption schedule enumeration of the real code, traces validated by TLC (SendRaceTrace.tla)")
 CHECKS["C09"] = dict(level="model_checking", design="5 C09",
    text="Ota.tla states what an OTA server must serve (0xFF padding of at most one page to a multiple of 128, 16-byte blocks, "
         "little-endian words, CRC-16/MODBUS defined bit by bit). TLC checks the spec's arithmetic for every length 1..400 and then acts "
